@@ -16,6 +16,7 @@
 #   limitations under the License.
 #
 import functools
+import re
 import itertools
 
 from warnings import warn
@@ -83,6 +84,9 @@ def get_formula_fname(script_fname: str, environment: Optional[Environment]=None
             return get_formula_strict(script, environment)
         else:
             return get_formula(script, environment)
+
+
+_NUMERAL_OR_DECIMAL = re.compile(r"^(0|[1-9][0-9]*)(\.[0-9]+)?$")
 
 
 class SmtLibExecutionCache(object):
@@ -690,6 +694,10 @@ class SmtLibParser(object):
             else:
                 # it could be a number or a string
                 try:
+                    # Only <numeral> and <decimal> of SMT-LIB are numbers:
+                    # Fraction() would also read e.g. -5, 1e1, 1_0 or 1/2
+                    if _NUMERAL_OR_DECIMAL.match(token) is None:
+                        raise ValueError(token)
                     frac = Fraction(token)
                     if frac.denominator == 1:
                         # We found an integer, depending on the logic this can be
